@@ -199,6 +199,10 @@ class ExecBase:
         r = st.nalloc
         st.nalloc = st.nalloc + 1
         st.flags["fresh"] = st.flags.get("fresh", []) + [r]       # allocated by this activation (frame)
+        if hasattr(r, "get_id"):
+            kinds = dict(st.flags.get("fresh_cls", {}))
+            kinds[r.get_id()] = cls                               # the class it was allocated as (references are untyped ints)
+            st.flags["fresh_cls"] = kinds
         st.flags["recent"] = st.flags.get("recent", []) + [r]     # ... since the last havoc boundary
         return r
 
